@@ -21,6 +21,10 @@ from .core import SR, SB, Ctx, lift, HarnessError, explore, Abort
 from .shim import Installed
 
 
+class ReplayUnavailable(Exception):
+    """The concrete replay cannot be set up from this model (e.g. a cut value is missing)"""
+
+
 class Cond:
     """A claim atom with an exact and a tolerance-relaxed form"""
 
@@ -66,11 +70,13 @@ def _or(a, b):
 class SymEnv:
     symbolic = True
 
-    def __init__(self, ctx, tier="quick"):
+    def __init__(self, ctx, tier="quick", on_claim=None):
         self.ctx = ctx
         self.tier = tier
         self.claims = []  # (name, key, Obligation)
         self.notes = {}
+        self.on_claim = on_claim
+        self.cutting = True
 
     # ---- inputs
     def real(self, name, lo=None, hi=None, strict_lo=False, strict_hi=False):
@@ -99,7 +105,18 @@ class SymEnv:
         self.ctx.merge_exceptions = tuple(names)
 
     # ---- relations (a, b numbers or proxies)
+    @staticmethod
+    def _nan(*xs):
+        for x in xs:
+            if isinstance(x, np.ndarray) and x.size == 1:
+                x = x.reshape(-1)[0]
+            if isinstance(x, (float, np.floating)) and x != x:
+                return True
+        return False
+
     def eq(self, a, b, tol=1e-9):
+        if self._nan(a, b):
+            return Cond(SB(z3.BoolVal(False)))  # a NaN reached the claim: it cannot hold (C02: values stay finite)
         ea, eb = lift(a), lift(b)
         d = ea - eb
         m = z3.If(ea >= 0, ea, -ea)
@@ -107,6 +124,8 @@ class SymEnv:
         return Cond(SB(ea == eb), SB(z3.And(d <= bound, -d <= bound)))
 
     def le(self, a, b, tol=1e-9):
+        if self._nan(a, b):
+            return Cond(SB(z3.BoolVal(False)))
         ea, eb = lift(a), lift(b)
         m = z3.If(eb >= 0, eb, -eb)
         bound = z3.If(m >= 1, m, z3.RealVal(1)) * lift(tol)
@@ -171,11 +190,18 @@ class SymEnv:
             ob2.meta["exact_status"] = "sat"
             ob = ob2
         self.claims.append((name, key or name, ob))
+        if self.on_claim:
+            self.on_claim(name, key or name, ob)
         return ob
 
-    def cut(self, value, name, guarantees=()):
+    def cut(self, value, name, guarantees=(), inject=True):
         """Replace a term by a fresh variable carrying only `guarantees(fresh)` (each proved by an earlier claim)"""
-        v = SR(self.ctx.fresh_real(name))
+        key = "%s!cut" % name
+        if key in self.ctx.inputs:
+            raise HarnessError("duplicate cut name %s" % name)
+        var = z3.Real(key)
+        self.ctx.inputs[key] = var
+        v = SR(var)
         for g in guarantees:
             c = g(v)
             self.ctx.solver.add(_b(c.exact if isinstance(c, Cond) else c))
@@ -197,9 +223,11 @@ class SymEnv:
 class ConcEnv:
     symbolic = False
 
-    def __init__(self, values, tier="quick"):
+    def __init__(self, values, tier="quick", inject=False):
         self.values = values
         self.tier = tier
+        self.inject = inject
+        self.cutting = inject
         self.results = {}  # claim name -> bool
         self.detail = {}
         self.assume_failed = []
@@ -239,13 +267,14 @@ class ConcEnv:
             return Cond(False)
         if a == b:
             return Cond(True)
-        return Cond(a == b, abs(a - b) <= 0.5 * tol * max(1.0, abs(a)))
+        # claims that are exact in real arithmetic (tol=0) are given a few ulps in the float replay
+        return Cond(a == b, abs(a - b) <= max(0.5 * tol, 1e-12) * max(1.0, abs(a), abs(b)))
 
     def le(self, a, b, tol=1e-9):
         a, b = self._f(a), self._f(b)
         if math.isnan(a) or math.isnan(b):
             return Cond(False)
-        return Cond(a <= b, a <= b + 0.5 * tol * max(1.0, abs(b)))
+        return Cond(a <= b, a <= b + max(0.5 * tol, 1e-12) * max(1.0, abs(a), abs(b)))
 
     def ge(self, a, b, tol=1e-9):
         return self.le(b, a, tol)
@@ -288,7 +317,14 @@ class ConcEnv:
             return
         self.results[name] = bool(cond.relaxed)
 
-    def cut(self, value, name, guarantees=()):
+    def cut(self, value, name, guarantees=(), inject=True):
+        # Replaying a model of the abstraction: the cut point takes the model's value (an arbitrary state satisfying the
+        # proved guarantees), so that the real code is run from exactly the state the solver chose
+        k = "%s!cut" % name
+        if self.inject and inject and k in self.values:
+            return float(Fraction(self.values[k]))
+        if value is None:
+            raise ReplayUnavailable("no value for cut point %s" % name)
         return value
 
     def nonfinite_guards(self):
@@ -316,15 +352,17 @@ def run_body(body, name, tier, seed, functions=(), bounds=None, stubs=(), timeou
     witness_models = []
 
     def fn(ctx):
-        env = SymEnv(ctx, tier)
-        ctx.merge_exceptions = tuple(declared_exceptions)
-        body(env)
         ok_names = set()
-        for cname, key, ob in env.claims:
+
+        def on_claim(cname, key, ob):
             if ob.status == "sat":
                 sat_claims.append((cname, key, ob.model, ob.text))
             elif ob.status == "unsat":
                 ok_names.add(cname)
+
+        env = SymEnv(ctx, tier, on_claim=on_claim)
+        ctx.merge_exceptions = tuple(declared_exceptions)
+        body(env)
         w = ctx.reachable("path-reachable")
         if w.status == "sat":
             witness_models.append((w.model, ok_names))
@@ -341,9 +379,11 @@ def run_body(body, name, tier, seed, functions=(), bounds=None, stubs=(), timeou
     # witness replay
     if replay_witnesses:
         for model, ok_names in witness_models[:64]:
-            env = ConcEnv(model, tier)
+            env = ConcEnv(model, tier, inject=True)
             try:
                 body(env)
+            except ReplayUnavailable:
+                continue
             except Exception as e:
                 if type(e).__name__ in declared_exceptions:
                     continue
@@ -365,7 +405,10 @@ def run_body(body, name, tier, seed, functions=(), bounds=None, stubs=(), timeou
         reproduced = False
         details = []
         for model, text in models[:8]:
-            env = ConcEnv(model, tier)
+          for inject in (False, True):
+            if inject and not any("!cut" in k for k in model):
+                continue
+            env = ConcEnv(model, tier, inject=inject)
             detail = ""
             try:
                 body(env)
@@ -373,8 +416,11 @@ def run_body(body, name, tier, seed, functions=(), bounds=None, stubs=(), timeou
                     detail = "model left the assumed region after conversion to float: %s" % env.assume_failed
                 elif cname in env.results and not env.results[cname]:
                     reproduced = True
+                    detail = "(replayed from the solver's intermediate state at the cut points)" if inject else ""
                 else:
                     detail = "claim holds concretely" if cname in env.results else "claim not reached concretely"
+            except ReplayUnavailable as e:
+                detail = str(e)
             except Exception as e:
                 if type(e).__name__ in declared_exceptions:
                     detail = "declared exception %s raised concretely" % type(e).__name__
@@ -382,6 +428,10 @@ def run_body(body, name, tier, seed, functions=(), bounds=None, stubs=(), timeou
                     # an undeclared crash on the counterexample input is itself a reproduction of a failure
                     reproduced = True
                     detail = "raised %s: %s" % (type(e).__name__, e)
+            if reproduced:
+                break
+            details.append(detail)
+          if True:
             if reproduced:
                 res["violations"].append(dict(key="%s:%s" % (name, key), what="%s fails: %s %s" % (cname, text, detail), model=model, obligations=[cname], replay=dict(group=name, claim=cname)))
                 break
@@ -398,11 +448,20 @@ def _trim(m, n=12):
 
 
 def replay_body(body, model, claim, tier="quick"):
-    env = ConcEnv(model, tier)
-    try:
-        body(env)
-    except Exception as e:
-        return True, "raised %s: %s" % (type(e).__name__, e)
-    if claim in env.results:
-        return (not env.results[claim]), "claim %s evaluates to %s on the real code" % (claim, env.results[claim])
-    return False, "claim %s not reached" % claim
+    last = "claim %s not reached" % claim
+    for inject in (False, True):
+        if inject and not any("!cut" in k for k in model):
+            continue
+        env = ConcEnv(model, tier, inject=inject)
+        try:
+            body(env)
+        except ReplayUnavailable as e:
+            last = str(e)
+            continue
+        except Exception as e:
+            return True, "raised %s: %s" % (type(e).__name__, e)
+        if claim in env.results:
+            last = "claim %s evaluates to %s on the real code%s" % (claim, env.results[claim], " (from the intermediate state of the counterexample)" if inject else "")
+            if not env.results[claim]:
+                return True, last
+    return False, last
